@@ -331,7 +331,7 @@ class Imm8Relocation(Relocation):
 
     def calc(self, sym_value, reloc_value):
         offset = sym_value - reloc_value - 4
-        assert offset in range(-128, 127), str(offset)
+        assert offset in range(-128, 128), str(offset)
         # TODO: this wrap_negative is somewhat weird
         return wrap_negative(offset, 8)
 
